@@ -1449,7 +1449,21 @@ NATIVE_FOREIGN_DOCS = [
     '# TYPE a histogram\na_bucket{le="+Inf"} 1\nb %s\n# EOF\n' % _NH,
     '# TYPE " a" histogram\n{"a"} %s\n# EOF\n' % _NH,
 ]
-REGRESSION_DOCS = [
+# probes for super-linear matching: long runs of digits / repeated groups followed by a character that makes the whole token
+# fail (a syntax regex with nested repetition backtracks exponentially on these); the watchdog turns a hang into a violation
+BACKTRACK_PROBES = [
+    '# TYPE a gauge\na 1 1700000000123456789123456789123456789123456789_\n# EOF\n',
+    '# TYPE a gauge\na 1 ' + '1' * 60 + 'x\n# EOF\n',
+    '# TYPE a gauge\na ' + '9' * 60 + '_ 1\n# EOF\n',
+    '# TYPE a gauge\na 1 ' + '1.' * 30 + 'e\n# EOF\n',
+    '# TYPE a counter\na_total 1 # {a="b"} ' + '7' * 60 + '_ 1\n# EOF\n',
+    '# TYPE a counter\na_total 1 # {a="b"} 1 ' + '7' * 60 + '_\n# EOF\n',
+    '# TYPE a histogram\na_bucket{le="' + '1' * 60 + '_"} 1\n# EOF\n',
+    '# TYPE a histogram\na {count:1,sum:1,schema:0,zero_threshold:0,zero_count:0,positive_spans:[' + '0:1,' * 30 + 'x],positive_deltas:[1]}\n# EOF\n',
+    '# TYPE a gauge\na{' + 'l="v",' * 40 + '"} 1\n# EOF\n',
+    '# HELP a ' + '\\\\' * 40 + '\\\n# EOF\n',
+]
+REGRESSION_DOCS = BACKTRACK_PROBES + [
     '# TYPE a histogram\na {x:1}\n# EOF\n',                                   # F12 KeyError('count')
     '# TYPE a histogram\na {count:1}\n# EOF\n',
     '# TYPE a histogram\na# {a="b"} 1\n# EOF\n',
